@@ -31,7 +31,7 @@ STMTS = [
     'f(a, b := 1, *c, d=2)', '"doc" "more"\nfrom __future__ import annotations', 'from __future__ import barry_as_FLUFL',
     'from __future__ import annotations, division', "'''doc'''\nfrom __future__ import division",
     'from __future__ import division as dv', 'from __future__ import (annotations as an, division)',
-    'from __future__ import generator_stop as gs, unicode_literals',
+    'from __future__ import generator_stop as gs, unicode_literals', 'global x\nx: int = 1', 'nonlocal_ = 1\nglobal y\ny: int',
 ]
 
 FRAME = {
